@@ -37,6 +37,7 @@ Init == /\ tpl \in DOMAIN Templates /\ sched \in Schedules /\ decline \in Declin
         /\ (fault.kind = "cbfail" => Writes(Templates[tpl][fault.k]))
         \* long templates (a COUNT of files): a fault at one call in twenty is enough
         /\ (Len(Templates[tpl]) > 30 => (fault.k = 0 \/ fault.k % 20 = 5))
+        /\ (Len(Templates[tpl]) > 1000 => (fault.k = 0 /\ sched = "all" /\ decline \in {"none", "second"}))
         /\ expect = <<>> /\ phase = "init"
 
 \* expected status class of call i: "ok" | "err" | "err_when_fired"
